@@ -165,7 +165,7 @@ CHECKS += [
     {
         "property_id": "C19", "engine": "crosshair", "category": "exploration",
         "technique": "CrossHair (z3) chooses circuit structure and display options within stated integer bounds; the drawing code runs on the realised values and must return a drawing without raising and leave the circuit unchanged",
-        "text": "Bounded structural exploration driven by the solver's choice of integers: 25 conditions over circuit size, component kind (8 kinds incl. labelled/unlabelled parameters, loss, barriers, unitary blocks), mode placement, herald in/out positions, heralded 3-mode groups at any position (flat or nested in a named group, followed by further components), loss display, parameter values, label-list length (also with a herald set directly on the circuit) and display type; both back ends. Every configuration within the bounds returns a drawing (or DisplayError exactly for a wrong label count or unknown type) and leaves the circuit's observable state unchanged. This is the weakest claim of the set: exception-freedom is a property of program structure and the numeric label formatting cannot be encoded.",
+        "text": "Bounded structural exploration driven by the solver's choice of integers: 26 conditions over circuit size, component kind (8 kinds incl. labelled/unlabelled parameters, loss, barriers, unitary blocks), mode placement, herald in/out positions, heralded 3-mode groups at any position (flat or nested in a named group, followed by further components), loss display, parameter values, label-list length (also with a herald set directly on the circuit) and display type; both back ends. Every configuration within the bounds returns a drawing (or DisplayError exactly for a wrong label count or unknown type) and leaves the circuit's observable state unchanged. This is the weakest claim of the set: exception-freedom is a property of program structure and the numeric label formatting cannot be encoded.",
         "design_ref": "DESIGN.md section 4 C19", "note": XH_NOTE + " The library's multimethod dispatch cannot be traced by CrossHair, so values are realised before the drawing call (the exploration is then an exhaustive solver-driven enumeration of the bounded integer space).",
     },
 ]
